@@ -223,8 +223,8 @@ Section Search.
     assert (L0 : live s e0 = true) by (unfold live; rewrite Hdel0; auto).
     pose proof (greedy_down_live (vlevel (vget s e0)) s q e0 (vdist dist s q e0) (vlevel (vget s e0)) L0) as LG.
     destruct (greedy_down dist ord s q e0 (vdist dist s q e0) (vlevel (vget s e0)) (vlevel (vget s e0))) as [ep d0]. simpl in LG.
-    destruct (search_level_good s q ep (Nat.max (c_ef c) k) 0 LG) as (G & NE).
-    set (found := search_level dist ord s q ep (Nat.max (c_ef c) k) 0) in *.
+    destruct (search_level_good s q ep (beam_width c s k) 0 LG) as (G & NE).
+    set (found := search_level dist ord s q ep (beam_width c s k) 0) in *.
     pose proof (select_good s q found k 0%nat G) as GS.
     set (sel := select dist ord c s q found k 0) in *.
     pose proof (firstn_good s q sel k GS) as (A & B & C).
